@@ -6,6 +6,7 @@ EXTENDS CfgUpdateI
 
 CONSTANTS FlowSet,        \* flow files of the instance
           Endpoints, Methods, MaxNth, WithBadB64,
+          GwOld,          \* contents of the gateway config file in the old configurations ("none" = absent)
           AnchorFlows     \* flows that exist (v1) in every old configuration (shrinks the quick instance; {} = no restriction)
 
 PathsMC == FlowSet \cup {"gateway_config.yaml", "metrics.yaml"}
@@ -16,7 +17,7 @@ Disks == {d \in [PathsMC -> {"none", "v1", "g1", "m1"}] :
             /\ \A f \in FlowSet : d[f] \in {"none", "v1"}
             /\ \E f \in FlowSet : d[f] = "v1"
             /\ \A f \in AnchorFlows : d[f] = "v1"
-            /\ d["gateway_config.yaml"] \in {"none", "g1"}
+            /\ d["gateway_config.yaml"] \in GwOld
             /\ d["metrics.yaml"] = "m1"}
 
 \* payload: per path absent / a valid new version / an invalid one
